@@ -66,6 +66,7 @@ def newest(paths):
 def coq_make(targets=None):
     """Full .vo build of the development (no -vos).  Raises BuildError naming the file."""
     with _Lock():
+        sh([sys.executable, os.path.join(VERIF, 'tools', 'assemble.py')])
         if (not os.path.exists(os.path.join(COQ, 'Makefile')) or
                 os.path.getmtime(os.path.join(COQ, 'Makefile')) < os.path.getmtime(os.path.join(COQ, '_CoqProject'))):
             sh('coq_makefile -f _CoqProject -o Makefile', cwd=COQ)
